@@ -20,8 +20,8 @@ import (
 var (
 	verifFlags = regexp.MustCompile(` *flags=\([^)]*\)`)
 	verifMu    sync.Mutex
-	verifSeq int
-	verifOut *os.File
+	verifSeq   int
+	verifOut   *os.File
 )
 
 // VerifTrace appends one event to $VERIF_TRACE (no-op when the variable is unset).
